@@ -16,7 +16,8 @@ ASSUMPTIONS = [
     "the mirror image of an axisymmetric particle with axis u is the same particle with axis M u",
 ]
 
-TOL = {"mie": 1e-10, "ms": 2e-3, "tmatrix": 3e-5, "mielens": 1e-10, "amielens": 1e-10, "lens": 1e-10, "lens_tm": 3e-5, "lens_ms": 2e-3}
+# mie: 1e-8 = 5 x eps / sqrt(ACCUR) of SBESJY (see C04); ms: 3 sqrt(eps) of its stopping rule; tmatrix: angle nudges
+TOL = {"mie": 1e-8, "ms": 2e-3, "tmatrix": 3e-5, "mielens": 1e-10, "amielens": 1e-10, "lens": 1e-10, "lens_tm": 3e-5, "lens_ms": 2e-3}
 KINDS = ["sphere", "layered", "cluster_mie", "cluster_ms", "spheroid", "cylinder", "mielens", "amielens", "lens"]
 
 
